@@ -375,6 +375,71 @@ func shapedScenario(g *Gen, which int) Case {
 		t.dir(VB + "/layers/b0/build/mnt/tmp")
 		byHand := obj("cmd", "sysmount", "args", hxs([]string{VB + "/hostsrc", VB + "/layers/b0/build/mnt/tmp", "bind"}), "flags", float64(4096))
 		steps = []interface{}{byHand, cmd("probe"), cmd("mount", "b0"), cmd("probe"), umountAll(), cmd("probe")}
+	case 27, 28:
+		// a dangling symbolic link where a directory of the layer belongs (27: the upper directory
+		// of a derived layer, 28: the build root of a base layer): mkdirs must make the directory
+		// or say that it could not
+		for _, l := range []glayer{{name: "b0", imports: imports}, {name: "d0", base: "b0", imports: imports},
+			{name: "x0", imports: imports}} {
+			genLayerTree(g, t, l, pf, false)
+		}
+		victim, where := "d0", VB+"/layers/d0/overlayfs/upperdir"
+		if which == 28 {
+			victim, where = "x0", VB+"/layers/x0/build"
+		}
+		for k := range t.ents {
+			if k == where || strings.HasPrefix(k, where+"/") {
+				delete(t.ents, k)
+			}
+		}
+		t.link(where, "/nonexistent/elsewhere")
+		steps = []interface{}{cmd("probe"), cmd("mkdirs", victim), cmd("probe"), cmd("mount", victim), cmd("probe"), umountAll()}
+	case 29:
+		// the layers directory itself is a dangling symbolic link (a disk that is not mounted):
+		// init must not report success without it
+		delete(t.ents, VB+"/layers")
+		t.link(VB+"/layers", "/nonexistent/disk/layers")
+		steps = []interface{}{cmd("init"), cmd("probe")}
+	case 30:
+		// an explicit export directive whose link cannot be made (a regular file where the export
+		// directory for generated files belongs) while the automatic packages link can: mount
+		// must report the failure
+		ex := []string{"export symlink /mnt/gen $$file_export"}
+		imps := append(append([]string{}, imports...), "import bind $$self/generated /mnt/gen")
+		for _, l := range []glayer{{name: "b0", imports: imps, exports: ex}} {
+			genLayerTree(g, t, l, pf, false)
+		}
+		t.dir(VB + "/layers/b0/packages")
+		t.dir(VB + "/layers/b0/generated")
+		t.file(VB+"/export/generated", "a file where a directory belongs")
+		steps = []interface{}{cmd("mount", "b0"), cmd("probe"), umountAll(), cmd("probe")}
+	case 31, 32:
+		// a foreign regular file named like the layer in the export tree: rename (31) and remove
+		// (32) must leave it alone
+		for _, l := range []glayer{{name: "b0", imports: imports}, {name: "other", imports: imports}} {
+			genLayerTree(g, t, l, pf, false)
+		}
+		t.dir(VB + "/export/packages")
+		t.dir(VB + "/export/generated")
+		t.file(VB+"/export/packages/b0", "not layercake's")
+		t.file(VB+"/export/generated/b0", "not layercake's either")
+		if which == 31 {
+			steps = []interface{}{cmd("probe"), cmd("rename", "b0", "b9"), cmd("probe")}
+		} else {
+			steps = []interface{}{cmd("probe"), obj("cmd", "remove", "args", hxs([]string{"b0"}), "files", true), cmd("probe")}
+		}
+	case 33:
+		// two explicit export directives: the link of the first is absent (never mounted), the
+		// place of the second is taken by a stale link leading elsewhere — the layer is in the
+		// error state and mount refuses
+		ex := []string{"export symlink /var/cache/binpkgs $$package_export", "export symlink /mnt/gen $$file_export"}
+		imps := append(append([]string{}, imports...), "import bind $$self/generated /mnt/gen")
+		for _, l := range []glayer{{name: "b0", imports: imps, exports: ex}} {
+			genLayerTree(g, t, l, pf, false)
+		}
+		t.dir(VB + "/export/generated")
+		t.link(VB+"/export/generated/b0", "/somewhere/else")
+		steps = []interface{}{cmd("probe"), cmd("mount", "b0"), cmd("probe"), umountAll(), cmd("probe")}
 	default:
 		// export directory names that differ from the layer's own directory names, explicit
 		// export directives, then rename and remove
@@ -393,7 +458,7 @@ func shapedScenario(g *Gen, which int) Case {
 
 func init() {
 	register("scn-directed", func(g *Gen, tier string, emit func(Case)) {
-		for w := 0; w < 27; w++ {
+		for w := 0; w < 34; w++ {
 			emit(shapedScenario(g, w))
 		}
 		// a derived layer mounted, listed and unmounted (history 4), and the export-link history
